@@ -75,6 +75,9 @@ func (V *Verifier) runClosures(prop string) []closureResult {
 			pkgName = "state"
 		}
 		for a := range allowed {
+			if a == "(none)" {
+				continue
+			}
 			if V.allFns[pkgName+"."+a] == nil {
 				bad = append(bad, "listed function "+a+" does not exist")
 			}
@@ -156,6 +159,19 @@ func (V *Verifier) runClosures(prop string) []closureResult {
 								}
 							}
 						}
+					case "format_args_exclude":
+						// no logging.* / fmt.* formatting call receives a value
+						// whose type can reach the named struct type
+						if ci, ok := in.(ssa.CallInstruction); ok {
+							callee := ci.Common().StaticCallee()
+							if callee != nil && callee.Pkg != nil && (strings.HasSuffix(callee.Pkg.Pkg.Path(), "goirc/logging") || callee.Pkg.Pkg.Path() == "fmt") {
+								for _, a := range formatArgs(ci.Common()) {
+									if typeReaches(a.Type(), target, 0, map[string]bool{}) {
+										hit = true
+									}
+								}
+							}
+						}
 					default:
 						bad = append(bad, "unknown closure kind "+kind)
 					}
@@ -168,7 +184,7 @@ func (V *Verifier) runClosures(prop string) []closureResult {
 				}
 			}
 		}
-		if res.Sites == 0 && len(bad) == 0 {
+		if res.Sites == 0 && len(bad) == 0 && kind != "format_args_exclude" {
 			bad = append(bad, "no site found at all (vacuous closure clause)")
 		}
 		if len(bad) > 0 {
@@ -179,4 +195,64 @@ func (V *Verifier) runClosures(prop string) []closureResult {
 		out = append(out, res)
 	}
 	return out
+}
+
+// formatArgs: the values handed to a variadic formatting call (unwrapping the
+// []interface{} literal go/ssa builds for the variadic part).
+func formatArgs(c *ssa.CallCommon) []ssa.Value {
+	var out []ssa.Value
+	for _, a := range c.Args {
+		if sl, ok := a.(*ssa.Slice); ok {
+			if alloc, ok := sl.X.(*ssa.Alloc); ok {
+				for _, r := range *alloc.Referrers() {
+					if ia, ok := r.(*ssa.IndexAddr); ok {
+						for _, r2 := range *ia.Referrers() {
+							if st, ok := r2.(*ssa.Store); ok && st.Addr == ia {
+								if mi, ok := st.Val.(*ssa.MakeInterface); ok {
+									out = append(out, mi.X)
+								} else {
+									out = append(out, st.Val)
+								}
+							}
+						}
+					}
+				}
+				continue
+			}
+		}
+		out = append(out, a)
+	}
+	return out
+}
+
+// typeReaches: can a value of type t lead (through pointers, fields, elements) to the named struct?
+func typeReaches(t types.Type, name string, depth int, seen map[string]bool) bool {
+	if depth > 6 {
+		return false
+	}
+	key := t.String()
+	if seen[key] {
+		return false
+	}
+	seen[key] = true
+	if n, ok := t.(*types.Named); ok && n.Obj().Name() == name {
+		return true
+	}
+	switch u := t.Underlying().(type) {
+	case *types.Pointer:
+		return typeReaches(u.Elem(), name, depth+1, seen)
+	case *types.Slice:
+		return typeReaches(u.Elem(), name, depth+1, seen)
+	case *types.Array:
+		return typeReaches(u.Elem(), name, depth+1, seen)
+	case *types.Map:
+		return typeReaches(u.Key(), name, depth+1, seen) || typeReaches(u.Elem(), name, depth+1, seen)
+	case *types.Struct:
+		for i := 0; i < u.NumFields(); i++ {
+			if typeReaches(u.Field(i).Type(), name, depth+1, seen) {
+				return true
+			}
+		}
+	}
+	return false
 }
